@@ -23,6 +23,49 @@ BUILT = {
    "Exhaustive over the fault position per case, sampled over trees; reference serializer/tokeniser in sim/src/model.rs is trusted."),
 }
 
+BUILT.update({
+ "C02": ("fault_enumeration", "DESIGN.md §5 C02",
+   "enumeration of the budget-exhaustion fault over every budget (cost <= 4096) or around every cost checkpoint of the probed reference trajectory, per seeded program",
+   "For each generated program the budget is enumerated exhaustively (cost <= 4096) or at c-1,c,c+1 around the cost checkpoints: soundness, same result, upward closure, cost-exceeded-only below the threshold, threshold = cost unless a cost-exempt guard was entered, 0 = unlimited.",
+   "Exhaustive over the fault position per case only; programs come from the seeded generator (no loops, cost <= ~2e8)."),
+ "C03": ("exploration", "DESIGN.md §5 C03",
+   "seeded simulation of a long-lived allocator's history (junk, earlier runs aborted by injected budget faults, restores, validated-point cache) + per-atom re-encoding + simulator-owned entropy for the add/sub accumulator split, against a fresh-state reference run",
+   "The target run is repeated after arbitrary allocator histories, with every atom re-encoded and under several entropy streams, and must equal the run on a fresh allocator with zero entropy.",
+   "Reference is the real code in its trivial configuration (common-mode bugs invisible); runs that hit an allocator limit are excluded as the statement says."),
+ "C04": ("exploration", "DESIGN.md §5 C04",
+   "paired real runs with and without ENABLE_GC under budget / heap-limit / atom-cap / pair-cap faults placed from the probed reference trajectory (the caps compare the whole counter trajectory); GC outcomes measured by probe",
+   "Outcome, error message and allocator counters must be identical with and without ENABLE_GC, also when a budget or allocator cap strikes while GC checkpoints are pending.",
+   "GC decisions are never forced; reach of each restore outcome is measured per batch; common-mode bugs invisible."),
+ "C08": ("exploration", "DESIGN.md §5 C08",
+   "paired real runs on ChiaDialect and on a harness-side extension-unaware Dialect, with budget and heap-limit faults placed from the aware run's trajectory; guards calibrated from probes",
+   "Whenever the aware dialect succeeds, the unaware one must succeed with equal cost, tree and allocator counts (nested / malformed / wrong-cost guards, 4-byte secp opcodes).",
+   "secp opcodes are exercised with invalid signatures only; both dialects share the same flags."),
+ "C16": ("exploration", "DESIGN.md §5 C16",
+   "three decoder clients on one byte string; parse_triples driven through a fault-injecting Read (short reads, EINTR, EOF / error at an offset); storage-fault mutations; allocation monitor; all strings of length <= 2 exhaustively",
+   "Totality, equal acceptance, equal consumption, same tree and hashes across node_from_bytes / tree_hash_from_stream / parse_triples, transparency of benign stream faults, failure on faults before the end, no over-read, canonical judgement.",
+   "Over-allocation bound 256*len + 2 MiB; reference decoder in sim/src/model.rs trusted."),
+ "C17": ("exploration", "DESIGN.md §5 C17",
+   "simulator-owned hash salts (K >= 4 assignments per tree, incl. colliding low bits) + repeated runs + short-writing / EINTR writer; independent reference decoder",
+   "Bytes identical under every salt and run, decodable by the real and the reference decoder to the same tree, canonical, never longer than classic, stable under re-serialization.",
+   "std HashMap SipHash keys cannot be seeded (a leak would show as a run-to-run difference); trees up to 700 / 6000 nodes."),
+ "C19": ("exploration", "DESIGN.md §5 C19",
+   "seeded add/undo histories of the incremental serializer (multi-level undo, token reuse, undo after completion, divergent re-adds) under K >= 4 assignments of hash and tree-cache salts, against a history model and an independent decoder",
+   "Undo restores the exact bytes, adds only append, completion flag matches the model, completed output decodes to the assembled tree, byte trajectory independent of the salts.",
+   "Two open known findings (undo leaves tree-cache links behind; the same sentinel-containing node added twice) are matched by narrow classes; each part contains the sentinel at most once."),
+ "C20": ("exploration", "DESIGN.md §5 C20",
+   "serde_2026 writer and reader sessions through fault-injecting Write / Read seams (short transfers, EINTR, hard error / EOF at an offset), max_atom_len as an injected bound, allocation monitor, storage-fault mutations, all bodies of length <= 2",
+   "Round trip in strict and lenient mode, probe = length = bytes consumed, stream faults transparent or failing cleanly with a working retry, totality on arbitrary bytes within the allocation bound, legacy decoders reject the magic prefix.",
+   "max_atom_len above 2^22 not explored (documented caller contract)."),
+ "C25": ("exploration", "DESIGN.md §5 C25",
+   "fault injection of budget exhaustion and heap / atom / pair caps at arbitrary trajectory points, per-atom re-encoding, arbitrary flag words; every operator function called directly near each cap; worker-process isolation for aborts, stack overflows and hangs",
+   "run_program and all 47 operator functions must return (no panic / abort / overflow / hang) and never report InternalError; the allocator recovers after a faulted run.",
+   "Finite budgets for programs (random trees may loop); the 20M-entry stack limit is out of reach."),
+ "C31": ("exploration", "DESIGN.md §5 C31",
+   "guard-enter / guard-exit probes over seeded guarded programs (nesting, both cost models, measured and deliberately wrong costs), preceded by runs that die inside a guard on the same allocator, heap-limited allocators; LIMIT_SOFTFORK depth chains",
+   "Per completed guard: counters restored exactly, declared cost consumed exactly unless cost-exempt (only under NEW_COST_MODEL), value nil; depth 21 fails with the depth error under LIMIT_SOFTFORK and 20 succeeds.",
+   "Trusts the probe placement (hooks are observe-only)."),
+})
+
 NA = {
  "C01": "Pure function of (program, environment, budget): no schedule, fault, stream or history to simulate; the only entropy it consults (add/sub accumulator split) is covered by C03; and its oracle, the Python clvm package, is not installed and cannot be fetched offline.",
  "C05": "Compares three differently-compiled builds of pure code; the deciding method is cross-build differential testing, which has no fault, entropy, stream or history dimension for a simulator to own.",
